@@ -107,7 +107,7 @@ pkgLoop:
 		}
 		for i, f := range p.Syntax {
 			fname := p.CompiledGoFiles[i]
-			if !strings.HasSuffix(fname, ".go") || strings.HasSuffix(fname, "_test.go") || strings.HasPrefix(filepathBase(fname), "zz_verif_") {
+			if !strings.HasSuffix(fname, ".go") || strings.HasSuffix(fname, "_test.go") {
 				continue
 			}
 			if len(f.Comments) > 0 && strings.HasPrefix(f.Comments[0].List[0].Text, "//simgen:skip") {
